@@ -47,6 +47,89 @@ Proof.
     + rewrite <- (Qfloor_scaled d0 d i Hd). apply Qfloor_le.
 Qed.
 
+Lemma ratio_frac a d : 0 < d -> (inject_Z a / inject_Z d - inject_Z (a / d) == (a mod d) # Z.to_pos d)%Q.
+Proof.
+  intros Hd. assert (E : a = d * (a / d) + a mod d) by (apply Z.div_mod; lia).
+  rewrite Qmake_Qdiv. rewrite Z2Pos.id by exact Hd.
+  rewrite E at 1. rewrite inject_Z_plus, inject_Z_mult. field. intro H.
+  unfold Qeq, inject_Z in H. cbn [Qnum Qden] in H. lia.
+Qed.
+
+Lemma ratio_lt a d b : 0 < d -> Qlt_bool (inject_Z a / inject_Z d) (inject_Z b) = (a / d <? b).
+Proof.
+  intros Hd. unfold Qlt_bool.
+  destruct (a / d <? b) eqn:E.
+  - apply negb_true_iff. destruct (Qle_bool _ _) eqn:L; [|reflexivity]. exfalso.
+    apply Qle_bool_iff in L. apply Qfloor_resp_le in L. rewrite Qfloor_ratio, Qfloor_Z in L by assumption. lia.
+  - apply negb_false_iff. apply Qle_bool_iff.
+    apply Qle_trans with (inject_Z (a / d)).
+    + rewrite <- Zle_Qle. lia.
+    + rewrite <- (Qfloor_ratio a d Hd). apply Qfloor_le.
+Qed.
+
+(* a proper fraction has 0 <= numerator < denominator, also after reduction to lowest terms *)
+Lemma frac_range (q : Q) : (0 <= q)%Q -> (q < 1)%Q -> 0 <= Qnum q < Zpos (Qden q).
+Proof. unfold Qle, Qlt. cbn [Qnum Qden]. lia. Qed.
+
+Lemma Qred_mod_range r d : 0 < d -> 0 <= r < d ->
+  0 <= Qnum (Qred (r # Z.to_pos d)) < Zpos (Qden (Qred (r # Z.to_pos d))).
+Proof.
+  intros Hd Hr. apply frac_range; rewrite Qred_correct; unfold Qle, Qlt; cbn [Qnum Qden];
+    rewrite ?Z2Pos.id by exact Hd; lia.
+Qed.
+
+(* ------------------------------------------------------------------ the integer path of the expanding branch *)
+
+Lemma Qfloor_make n (m : positive) : Qfloor (n # m) = n / Zpos m.
+Proof. reflexivity. Qed.
+
+(* GENERATED integer interpolation (num = lo*m + (i % m)*(hi-lo); q = |num| // m, negated when num < 0)
+   = truncation toward zero of the exact interpolant lo + (i/m)(hi - lo), for 0 <= i < m *)
+Theorem int_path_is_truncation (t a b : Q) : 0 <= Qnum t < Zpos (Qden t) ->
+  expand_int_path t a b = lin (ops_elem DInt) t a b.
+Proof.
+  intros Ht. unfold expand_int_path. cbn [lin ops_elem]. f_equal.
+  unfold rebin_expand_int_num, rebin_expand_int_q, rebin_expand_int_negate.
+  destruct t as [r m]. cbn [Qnum Qden] in *.
+  set (lo := Qfloor a). set (hi := Qfloor b).
+  rewrite Z.mod_small by lia.
+  set (num := lo * Zpos m + r * (hi - lo)).
+  assert (X : (inject_Z lo + (r # m) * (inject_Z hi - inject_Z lo) == num # m)%Q).
+  { unfold Qeq, Qminus, Qopp, inject_Z. cbn [Qplus Qmult Qnum Qden]. subst num.
+    rewrite ?Pos2Z.inj_mul. ring. }
+  unfold Qtrunc.
+  assert (S0 : Qle_bool 0 (inject_Z lo + (r # m) * (inject_Z hi - inject_Z lo)) = (0 <=? num)).
+  { destruct (0 <=? num) eqn:E.
+    - apply Qle_bool_iff. rewrite X. unfold Qle. cbn [Qnum Qden]. lia.
+    - destruct (Qle_bool _ _) eqn:L; [|reflexivity]. apply Qle_bool_iff in L. rewrite X in L.
+      unfold Qle in L. cbn [Qnum Qden] in L. lia. }
+  rewrite S0. destruct (num <? 0) eqn:N.
+  - replace (0 <=? num) with false by lia.
+    unfold Qceiling. rewrite (Qfloor_comp _ _ (Qopp_comp _ _ X)).
+    change (- (num # m))%Q with ((- num) # m). rewrite Qfloor_make.
+    replace (Z.abs num) with (- num) by lia. lia.
+  - replace (0 <=? num) with true by lia.
+    rewrite (Qfloor_comp _ _ X), Qfloor_make. replace (Z.abs num) with num by lia. reflexivity.
+Qed.
+
+(* agreement of two element-operation records on proper-fraction weights *)
+Definition ops_agree {T} (oM oS : ops T) : Prop :=
+  (forall t a b, 0 <= Qnum t < Zpos (Qden t) -> lin oM t a b = lin oS t a b) /\
+  (forall l f, avg oM l f = avg oS l f) /\ dfl oM = dfl oS.
+
+Lemma ops_gen_agree k : ops_agree (ops_gen k) (ops_elem k).
+Proof.
+  destruct k; repeat split; try reflexivity. intros t a b Ht. apply (int_path_is_truncation t a b Ht).
+Qed.
+
+Lemma ops_lift_agree {T} (oM oS : ops T) : ops_agree oM oS -> ops_agree (ops_lift oM) (ops_lift oS).
+Proof.
+  intros [Hl [Ha Hd]]. repeat split.
+  - intros t a b Ht. cbn [lin ops_lift]. apply map_ext. intros p. apply Hl. exact Ht.
+  - intros l f. cbn [avg ops_lift]. destruct l as [|v r]; [reflexivity|].
+    apply map_ext. intros j. rewrite Ha, Hd. reflexivity.
+Qed.
+
 (* ------------------------------------------------------------------ one axis: M = S *)
 
 Section AxisProofs.
@@ -66,35 +149,52 @@ Section AxisProofs.
     apply map_ext. intros k. rewrite getT_nth by lia. f_equal. lia.
   Qed.
 
-  (* the transliteration (floor of an exact rational product, Python slices) computes exactly the
-     integer-subscript specification, for every array and every new extent *)
-  Theorem rebin_axis_refines_spec sample (xs : list T) d :
-    rebin_axis o sample xs d = rebin_axis_spec o sample xs d.
+  Lemma map_getT_id (xs : list T) : map (fun t => getT o xs (Z.of_nat t)) (seq 0 (length xs)) = xs.
   Proof.
+    transitivity (firstn (length xs) xs); [|apply firstn_all]. rewrite (firstn_nth (dfl o)) by lia.
+    apply map_ext. intros k. rewrite getT_nth by lia. f_equal. lia.
+  Qed.
+
+  (* the transliteration over the GENERATED expressions (integer subscript, exact p, `p < bound`, neighbour
+     subscripts, loop bounds, Python slices; element rules oM that agree with o on proper-fraction weights)
+     computes exactly the integer-subscript specification, for every array and every new extent *)
+  Theorem rebin_axis_refines_spec (oM : ops T) sample (xs : list T) d : ops_agree oM o ->
+    rebin_axis oM sample xs d = rebin_axis_spec o sample xs d.
+  Proof.
+    intros [Hl [Ha Hd0]].
+    assert (G : forall j, getT oM xs j = getT o xs j) by (intros j; unfold getT; rewrite Hd0; reflexivity).
     unfold rebin_axis, rebin_axis_spec.
-    unfold rebin_is_expand, rebin_is_keep, rebin_shrink_f, rebin_shrink_pick, rebin_shrink_lo, rebin_shrink_hi.
+    unfold rebin_is_expand, rebin_is_keep, rebin_shrink_f, rebin_shrink_pick, rebin_shrink_lo, rebin_shrink_hi,
+      rebin_expand_count, rebin_expand_fp, rebin_expand_p_num, rebin_expand_p_den, rebin_expand_lo, rebin_expand_hi,
+      rebin_expand_interp_bound, rebin_keep_count, rebin_keep_src, rebin_shrink_count.
     destruct (lenZ xs <? d) eqn:E1.
     - replace (d >? lenZ xs) with true by lia.
       assert (Hd : 0 < d) by (unfold lenZ in *; lia).
       apply map_seq_ext. intros k Hk. cbv zeta.
-      rewrite Qfloor_scaled by exact Hd. rewrite scaled_lt by exact Hd.
+      rewrite ratio_lt by exact Hd. rewrite !G.
       destruct sample; [reflexivity|].
       destruct (Z.of_nat k * lenZ xs / d <? lenZ xs - 1); [|reflexivity].
-      f_equal. apply Qred_complete. apply scaled_frac. exact Hd.
+      assert (W : Qred (inject_Z (Z.of_nat k * lenZ xs) / inject_Z d - inject_Z (Z.of_nat k * lenZ xs / d))
+                  = Qred ((Z.of_nat k * lenZ xs) mod d # Z.to_pos d)).
+      { apply Qred_complete. apply ratio_frac. exact Hd. }
+      rewrite W. apply Hl. apply Qred_mod_range; [exact Hd|]. apply Z.mod_pos_bound. exact Hd.
     - replace (d >? lenZ xs) with false by lia.
-      destruct (lenZ xs =? d) eqn:E2; [replace (d =? lenZ xs) with true by lia; reflexivity|].
-      replace (d =? lenZ xs) with false by lia.
-      apply map_seq_ext. intros k Hk. cbv zeta.
-      assert (Hd : 0 < d) by lia.
-      set (f := lenZ xs / d). set (i := Z.of_nat k).
-      destruct sample; [f_equal; lia|].
-      assert (F0 : 0 <= f) by (subst f; apply Z.div_pos; unfold lenZ; lia).
-      assert (F1 : f * (i + 1) <= f * d) by (apply Z.mul_le_mono_nonneg_l; lia).
-      assert (F2 : f * d <= lenZ xs) by (subst f; rewrite Z.mul_comm; apply Z.mul_div_le; lia).
-      assert (F3 : 0 <= f * i) by (apply Z.mul_nonneg_nonneg; lia).
-      rewrite pyslice_getT by lia.
-      replace (f * (i + 1) - f * i) with f by lia.
-      f_equal. apply map_ext. intros u. f_equal. lia.
+      destruct (lenZ xs =? d) eqn:E2.
+      + replace (d =? lenZ xs) with true by lia.
+        replace (Z.to_nat d) with (length xs) by (unfold lenZ in E2; lia).
+        rewrite <- (map_getT_id xs) at 2. apply map_ext. intros t. apply G.
+      + replace (d =? lenZ xs) with false by lia.
+        apply map_seq_ext. intros k Hk. cbv zeta.
+        assert (Hd : 0 < d) by lia.
+        set (f := lenZ xs / d). set (i := Z.of_nat k).
+        destruct sample; [rewrite G; f_equal; lia|].
+        assert (F0 : 0 <= f) by (subst f; apply Z.div_pos; unfold lenZ; lia).
+        assert (F1 : f * (i + 1) <= f * d) by (apply Z.mul_le_mono_nonneg_l; lia).
+        assert (F2 : f * d <= lenZ xs) by (subst f; rewrite Z.mul_comm; apply Z.mul_div_le; lia).
+        assert (F3 : 0 <= f * i) by (apply Z.mul_nonneg_nonneg; lia).
+        rewrite Ha. rewrite pyslice_getT by lia.
+        replace (f * (i + 1) - f * i) with f by lia.
+        f_equal. apply map_ext. intros u. f_equal. lia.
   Qed.
 
   (* ---- rebin_shape (one axis) ---- *)
@@ -227,7 +327,7 @@ Theorem rebin_expand_int_truncates xs m k :
   let r := Z.of_nat k mod m in
   exists v, nth_error (rebin_axis_spec (ops_elem DInt) false xs (n * m)) k = Some v /\
             v = (if j <? n - 1
-                 then inject_Z (Qtrunc (getQ xs j + Qred ((n * r) # Z.to_pos (n * m)) * (getQ xs (j + 1) - getQ xs j)))
+                 then lin (ops_elem DInt) (Qred ((n * r) # Z.to_pos (n * m))) (getQ xs j) (getQ xs (j + 1))
                  else getQ xs j).
 Proof.
   intros Hne Hm Hk n j r.
@@ -265,22 +365,29 @@ Qed.
 Theorem rebin1_refines k s x d : rebin1 k s x d = rebin1_spec k s x d.
 Proof.
   unfold rebin1, rebin1_spec, rebin1_with. rewrite dims_ok_gen_eq. destruct (dims_ok (shape1 x) d); [|reflexivity].
-  destruct d as [|a [|b r]]; try reflexivity. rewrite rebin_axis_refines_spec. reflexivity.
+  destruct d as [|a [|b r]]; try reflexivity.
+  rewrite (rebin_axis_refines_spec Q (ops_elem k) (ops_gen k)) by apply ops_gen_agree. reflexivity.
 Qed.
 
 Theorem rebin2_refines k s x d : rebin2 k s x d = rebin2_spec k s x d.
 Proof.
   unfold rebin2, rebin2_spec, rebin2_with. rewrite dims_ok_gen_eq. destruct (dims_ok (shape2 x) d); [|reflexivity].
-  destruct d as [|a [|b [|c r]]]; try reflexivity. rewrite rebin_axis_refines_spec.
-  f_equal. apply map_ext. intros row. apply rebin_axis_refines_spec.
+  destruct d as [|a [|b [|c r]]]; try reflexivity.
+  rewrite (rebin_axis_refines_spec _ (ops_lift (ops_elem k)) (ops_lift (ops_gen k)))
+    by apply ops_lift_agree, ops_gen_agree.
+  f_equal. apply map_ext. intros row. apply rebin_axis_refines_spec, ops_gen_agree.
 Qed.
 
 Theorem rebin3_refines k s x d : rebin3 k s x d = rebin3_spec k s x d.
 Proof.
   unfold rebin3, rebin3_spec, rebin3_with. rewrite dims_ok_gen_eq. destruct (dims_ok (shape3 x) d); [|reflexivity].
-  destruct d as [|a [|b [|c [|e r]]]]; try reflexivity. rewrite rebin_axis_refines_spec.
-  f_equal. rewrite !map_map. apply map_ext. intros plane. rewrite rebin_axis_refines_spec.
-  apply map_ext. intros row. apply rebin_axis_refines_spec.
+  destruct d as [|a [|b [|c [|e r]]]]; try reflexivity.
+  rewrite (rebin_axis_refines_spec _ (ops_lift (ops_lift (ops_elem k))) (ops_lift (ops_lift (ops_gen k))))
+    by apply ops_lift_agree, ops_lift_agree, ops_gen_agree.
+  f_equal. rewrite !map_map. apply map_ext. intros plane.
+  rewrite (rebin_axis_refines_spec _ (ops_lift (ops_elem k)) (ops_lift (ops_gen k)))
+    by apply ops_lift_agree, ops_gen_agree.
+  apply map_ext. intros row. apply rebin_axis_refines_spec, ops_gen_agree.
 Qed.
 
 (* ---- rebin_rejects_nonintegral / rank change ---- *)
@@ -370,4 +477,49 @@ Proof.
     + unfold lenZ. rewrite map_length, rebin_axis_spec_length by lia. lia.
     + apply Forall_forall. intros row Hr. apply in_map_iff in Hr. destruct Hr as [r0 [<- _]].
       unfold lenZ. rewrite rebin_axis_spec_length by lia. lia.
+Qed.
+
+(* ------------------------------------------------------------------ the integer path exactly as written *)
+
+Lemma lin_int_weight_comp t t' a b : (t == t')%Q -> lin (ops_elem DInt) t a b = lin (ops_elem DInt) t' a b.
+Proof.
+  intros E. cbn [lin ops_elem]. f_equal. unfold Qtrunc.
+  set (a' := inject_Z (Qfloor a)). set (b' := inject_Z (Qfloor b)).
+  assert (X : (a' + t * (b' - a') == a' + t' * (b' - a'))%Q) by (rewrite E; reflexivity).
+  assert (B : Qle_bool 0 (a' + t * (b' - a')) = Qle_bool 0 (a' + t' * (b' - a'))).
+  { destruct (Qle_bool 0 (a' + t' * (b' - a'))) eqn:L.
+    - apply Qle_bool_iff. rewrite X. apply Qle_bool_iff. exact L.
+    - destruct (Qle_bool 0 (a' + t * (b' - a'))) eqn:L2; [|reflexivity].
+      apply Qle_bool_iff in L2. rewrite X in L2. apply Qle_bool_iff in L2. congruence. }
+  rewrite B. unfold Qceiling. rewrite (Qfloor_comp _ _ X), (Qfloor_comp _ _ (Qopp_comp _ _ X)). reflexivity.
+Qed.
+
+(* In rebin.py the integer path is evaluated at (i, m) with m = d[k]//d0[k] (GENERATED rebin_expand_m) and the
+   raw loop counter i; M evaluates the same GENERATED formula at the weight p - fp in lowest terms.  For every
+   admissible extent d = d0*mm the two are the same number. *)
+Theorem int_path_as_written d0 mm i a b : 0 < d0 -> 0 < mm -> 0 <= i ->
+  let d := d0 * mm in
+  let m := rebin_expand_m d0 d in
+  let w := Qred (inject_Z (rebin_expand_p_num d0 d i) / inject_Z (rebin_expand_p_den d0 d i)
+                 - inject_Z (rebin_expand_fp d0 d i)) in
+  expand_int_path (i # Z.to_pos m) a b = expand_int_path w a b.
+Proof.
+  intros H0 Hm Hi d m w.
+  assert (Em : m = mm) by (subst m d; unfold rebin_expand_m; rewrite Z.mul_comm; apply Z.div_mul; lia).
+  assert (Hd : 0 < d) by (subst d; nia).
+  assert (L : expand_int_path (i # Z.to_pos m) a b = expand_int_path ((i mod m) # Z.to_pos m) a b).
+  { unfold expand_int_path, rebin_expand_int_num. cbn [Qnum Qden]. rewrite Z2Pos.id by lia.
+    rewrite Z.mod_mod by lia. reflexivity. }
+  rewrite L.
+  rewrite int_path_is_truncation by (cbn [Qnum Qden]; rewrite Z2Pos.id by lia; apply Z.mod_pos_bound; lia).
+  assert (W : (w == (i mod m) # Z.to_pos m)%Q).
+  { subst w. rewrite Qred_correct. unfold rebin_expand_p_num, rebin_expand_p_den, rebin_expand_fp.
+    rewrite (ratio_frac (i * d0) d Hd). subst d.
+    destruct (expand_subscripts d0 mm i H0 Hm) as [_ Er]. rewrite Er. rewrite Em.
+    unfold Qeq. cbn [Qnum Qden]. rewrite !Z2Pos.id by nia. ring. }
+  rewrite int_path_is_truncation.
+  - apply lin_int_weight_comp. symmetry. exact W.
+  - subst w. unfold rebin_expand_p_num, rebin_expand_p_den, rebin_expand_fp.
+    rewrite (Qred_complete _ _ (ratio_frac (i * d0) d Hd)).
+    apply Qred_mod_range; [exact Hd|apply Z.mod_pos_bound; exact Hd].
 Qed.
